@@ -357,7 +357,7 @@ def obligations(tier: str):
     q = tier == "quick"
     parts = {"part": [0, 1, 2]}
     if q:
-        T1 = 240
+        T1 = 900  # wall-clock cap, not cost
         return [
             Chx("sound", h_offer, timeout=T1, fix={"law": 0, "u": 0, "n": 6}, split=parts),
             Chx("same", h_offer, timeout=T1, fix={"law": 1, "u": 0, "n": 6}, split=parts),
